@@ -18,6 +18,7 @@
 
    Definitions only. *)
 From FB Require Export C01.Fmt C01.Formats C01.Model C01.Resolve.
+From FB Require Import Base.Sort.
 
 (* ---------------------------------------------------------------------------------------------- *)
 (* pool accessors by number: 0..12 as Pool.resolve_kind, then the narrowing accessors of element values *)
@@ -96,8 +97,9 @@ Definition frame_fmt : fmt :=
                  else if t <? 252 then FU16
                  else if t <? 255 then FSeq [FU16; FSeq (repeat vti_fmt (N.to_nat (t - 251)))]
                  else FSeq [FU16; FVec16 vti_fmt; FVec16 vti_fmt]).
-(* the CLDC StackMap attribute is not modelled: the model answers Err where duke parses it *)
-Definition f_unmodelled : fmt := FTag (fun _ _ => false) (fun _ => FSeq []).
+(* the CLDC StackMap attribute: per entry an absolute offset and a full frame (uoffset, ulocalvar and
+   ustack are u2, as duke reads them) *)
+Definition cldc_frame_fmt : fmt := FSeq [FPc 0; FVec16 vti_fmt; FVec16 vti_fmt].
 
 Fixpoint pick (name : str) (tbl : list (str * fmt)) (dflt : fmt) : fmt :=
   match tbl with [] => dflt | (n, f) :: r => if str_eqb n name then f else pick name r dflt end.
@@ -109,7 +111,7 @@ Definition ann_rows (target : fmt) : list (str * fmt) :=
 
 Definition code_sel (name : str) (len : N) : fmt :=
   pick name
-    [(a_StackMapTable, FVec16 frame_fmt); (a_StackMap, f_unmodelled);
+    [(a_StackMapTable, FVec16 frame_fmt); (a_StackMap, FVec16 cldc_frame_fmt);
      (a_LineNumberTable, FVec16 (FSeq [FPc 0; FU16]));
      (a_LocalVariableTable, FVec16 (FSeq [FRange; FIdx 8; FIdx 8; FU16]));
      (a_LocalVariableTypeTable, FVec16 (FSeq [FRange; FIdx 8; FIdx 8; FU16]));
@@ -281,12 +283,13 @@ Definition slot_list (n : str) (l : list (str * val)) : list val :=
 Definition ctx_names (ctx : N) : list str :=
   match ctx with 0 => known_class | 1 => known_field | 2 => known_method | 3 => known_code | _ => known_record end.
 
-Inductive policy := PUnknown | PFlag | POnce | POver | PExtend | PLocals (t : N) | PDrop | PCode | PRecord.
+Inductive policy := PUnknown | PFlag | POnce | POver | PExtend | PLocals (t : N) | PDrop | PCode | PRecord | PFrames.
 Definition policy_of (impl : bool) (ctx : N) (name : str) : policy :=
   if negb (mem_str name (ctx_names ctx)) then PUnknown
   else if str_eqb name a_Deprecated || str_eqb name a_Synthetic then PFlag
   else if str_eqb name a_Code then PCode
   else if str_eqb name a_Record then PRecord
+  else if str_eqb name a_StackMapTable || str_eqb name a_StackMap then PFrames
   else if mem_str name [a_RuntimeVisibleAnnotations; a_RuntimeInvisibleAnnotations; a_RuntimeVisibleTypeAnnotations;
                         a_RuntimeInvisibleTypeAnnotations; a_LineNumberTable] then PExtend
   else if str_eqb name a_LocalVariableTable then PLocals 0
@@ -316,6 +319,12 @@ Definition apply_simple (impl : bool) (ctx : N) (st : astate) (name : str) (v : 
     | _ => Err
     end
   | PDrop => Ok st
+  | PFrames =>
+    (* StackMapTable and StackMap fill the same Option (`stack_map_frame.insert_if_empty`) *)
+    match slot_get a_StackMapTable (st_slots st), slot_get a_StackMap (st_slots st) with
+    | None, None => Ok (st_put st name v)
+    | _, _ => Err
+    end
   | PCode | PRecord => Err
   end.
 
@@ -348,6 +357,10 @@ Definition frame_norm (f : val) : val :=
     else match body with VSeq [_; a; b] => VTag 4 (VSeq [a; b]) | _ => f end
   | _ => f
   end.
+(* a CLDC StackMap entry: its offset, and the full frame it holds *)
+Definition cldc_key (f : val) : N := match f with VSeq (VPc _ o :: _) => o | _ => 0 end.
+Definition cldc_norm (f : val) : val := match f with VSeq [_; a; b] => VTag 4 (VSeq [a; b]) | _ => f end.
+Definition cldc_sorted (l : list val) : list val := isort (fun a b => cldc_key a <=? cldc_key b) l.
 Definition exc_triple (v : val) : res (N * N * N) :=
   match v with VSeq [VPc _ s; VPc _ e; VPc _ h; _] => Ok (s, e, h) | _ => Err end.
 Definition line_pair (v : val) : res (N * N) :=
@@ -360,8 +373,15 @@ Definition code_parts (v : val) : option (N * N * bytes * list val * list val) :
   match v with VSeq [VN ms; VN ml; VB code; VList exc; VList attrs] => Some (ms, ml, code, exc, attrs) | _ => None end.
 
 (* the label-carrying tables of a Code attribute, as the code-array reader takes them (Model.code_in) *)
+(* the frames of the method in the order they are queued in, without their offsets *)
+Definition frames_of_state (st : astate) : list val :=
+  match slot_get a_StackMap (st_slots st) with
+  | Some (VList l) => map cldc_norm (cldc_sorted l)
+  | _ => map frame_norm (slot_list a_StackMapTable (st_slots st))
+  end.
 Definition code_in_of_state (code : bytes) (exc : list val) (st : astate) : res code_in :=
   let frames := slot_list a_StackMapTable (st_slots st) in
+  let cldc := slot_list a_StackMap (st_slots st) in
   let lvs := slot_list a_LocalVariableTable (st_slots st) in
   let tas := slot_list a_RuntimeVisibleTypeAnnotations (st_slots st) ++ slot_list a_RuntimeInvisibleTypeAnnotations (st_slots st) in
   do ex <- map_res exc_triple exc;
@@ -370,7 +390,8 @@ Definition code_in_of_state (code : bytes) (exc : list val) (st : astate) : res 
   Ok {| ci_code := code; ci_exc := ex; ci_lines := ln;
         ci_ranges := flat_map ranges_of lvs ++ flat_map ranges_of tas;
         ci_frames := ds;
-        ci_points := flat_map pcs_of frames ++ flat_map pcs_of tas |}.
+        ci_cldc := match slot_get a_StackMap (st_slots st) with Some _ => Some (map cldc_key cldc) | None => None end;
+        ci_points := flat_map pcs_of frames ++ flat_map pcs_of (map cldc_norm (cldc_sorted cldc)) ++ flat_map pcs_of tas |}.
 (* what the tree holds of a Code attribute: [ix] turns a label into the index of its instruction,
    [attached] is the number of frames that found their instruction *)
 Definition code_desc_of (ms ml : N) (xi : list (bool * option nat * xinsn)) (last : bool) (ix : N -> option nat)
@@ -379,7 +400,7 @@ Definition code_desc_of (ms ml : N) (xi : list (bool * option nat * xinsn)) (las
      k_exc := map (map_pcs ix) exc;
      k_lines := map (map_pcs ix) (slot_list a_LineNumberTable (st_slots st));
      k_lvs := map (map_pcs ix) (slot_list a_LocalVariableTable (st_slots st));
-     k_frames := firstn attached (map (fun f => map_pcs ix (frame_norm f)) (slot_list a_StackMapTable (st_slots st)));
+     k_frames := firstn attached (map (fun f => map_pcs ix f) (frames_of_state st));
      k_vta := map (map_pcs ix) (slot_list a_RuntimeVisibleTypeAnnotations (st_slots st));
      k_ita := map (map_pcs ix) (slot_list a_RuntimeInvisibleTypeAnnotations (st_slots st));
      k_unknown := st_unknown st |}.
